@@ -1034,3 +1034,25 @@ def _m80():
     from bfg9000.backends.make import writer
     _patch_source(writer, 'flags_vars', "flags = buildfile.target_variable(name, gflags, True)",
                   "flags = buildfile.variable(name, gflags, Section.other, True)")
+
+
+@mutant('ninja_copy_input_per_step')
+def _m81():
+    # copy_file.ninja_copy_file: the input variable is chosen per step, but the rule is shared
+    from bfg9000.builtins import copy_file as cf
+    from bfg9000.backends.ninja import writer as nw
+    old = cf.ninja_copy_file
+    _patch_source(cf, 'ninja_copy_file', """        input_var = ninja.var('input')
+        variables[input_var] = copier.transform_input(
+            rule.file, rule.raw_output
+        )
+    else:
+        input_var = ninja.var('in')""", """        input_var = ninja.var('in')
+        _inp = copier.transform_input(rule.file, rule.raw_output)
+        if _inp != rule.file.path:
+            input_var = ninja.var('input')
+            variables[input_var] = _inp
+    else:
+        input_var = ninja.var('in')
+""")
+    _swap_handler(nw.rule_handler, old, cf.ninja_copy_file)
